@@ -44,6 +44,9 @@ func NewSparseConstFloat32Vector(indices []int, values []float32, n int) SparseC
   if len(indices) != len(values) {
     panic("invalid number of indices")
   }
+  // sort and filter copies, the arguments are left untouched
+  indices = append([]int{}, indices...)
+  values = append([]float32{}, values...)
   sort.Sort(sortIntConstFloat32{indices, values})
   r := nilSparseConstFloat32Vector(n)
   r.indices = indices[0:0]
